@@ -35,7 +35,7 @@ import sys
 import threading
 from fractions import Fraction
 
-from .common import CORPUS, shards
+from .common import CORPUS
 
 # the model's parameter sets, only used to choose the helper lemma (clamp
 # branch) for a sample; a wrong choice can only make a lemma fail
@@ -310,8 +310,20 @@ def iv(unf):
     return "unfold %s; interval with (i_prec 80)" % unf
 
 
+def zq(x):
+    """numerator and denominator as arguments of the q_* lemmas (Z and positive)"""
+    f = Fraction(x)
+    n, d = f.numerator, f.denominator
+    return "%s %d" % (("(%d)" % n) if n < 0 else str(n), d)
+
+
+BOOL = "vm_compute; reflexivity"
+
+
 def reading_lemma(name, S, v, x):
-    """close ctol x (reading_K v): the implementation read x at voltage v"""
+    """close ctol x (reading_K v): the implementation read x at voltage v.
+    The rational side conditions (which clamp branch) are decided in Z by the
+    q_* lemmas of IR/Proofs.v; the power-law premise goes to interval."""
     K = S["key"]
     adm = "_ _ _ _ _ %s_admissible" % K
     if v == INF:
@@ -323,21 +335,18 @@ def reading_lemma(name, S, v, x):
                 % (name, lit(x), K, K, K, K, adm, K, K)), "v=-inf"
     st = "Lemma %s : close ctol %s (reading_%s %s).\n" % (name, lit(x), K, lit(v))
     fv, fx = Fraction(v), Fraction(x)
+    args = "%s %s" % (zq(v), zq(x))
     if fv <= FL:
-        pf = ("apply (corr_floor %s _ ctol_ok _ _ %s_floor_reads_hi); [unfold floor_volts; lra | unfold %s_hi; lra]"
-              % (adm, K, K))
+        pf = "apply (%s_q_floor %s); %s" % (K, args, BOOL)
         br = "floor"
     elif fx == S["Fhi"]:
-        pf = ("apply (corr_hi %s _ ctol_ok); [unfold floor_volts; lra | unfold %s_hi; lra | %s]"
-              % (adm, K, iv("ctol, %s_hi, %s_c, %s_e" % (K, K, K))))
+        pf = "apply (%s_q_hi %s); [%s | %s]" % (K, args, BOOL, iv("fr, ctol, %s_hi, %s_c, %s_e" % (K, K, K)))
         br = "hi"
     elif fx == S["Flo"]:
-        pf = ("apply (corr_lo %s _ ctol_ok); [unfold floor_volts; lra | unfold %s_lo; lra | %s]"
-              % (adm, K, iv("ctol, %s_lo, %s_c, %s_e" % (K, K, K))))
+        pf = "apply (%s_q_lo %s); [%s | %s]" % (K, args, BOOL, iv("fr, ctol, %s_lo, %s_c, %s_e" % (K, K, K)))
         br = "lo"
     else:
-        pf = ("apply (corr_mid %s _ ctol_ok); [unfold floor_volts; lra | unfold %s_lo, %s_hi; lra | %s]"
-              % (adm, K, K, iv("close, ctol, %s_c, %s_e" % (K, K))))
+        pf = "apply (%s_q_mid %s); [%s | %s]" % (K, args, BOOL, iv("fr, close, ctol, %s_c, %s_e" % (K, K)))
         br = "mid"
     return st + "Proof. " + pf + ". Qed.\n", br
 
@@ -345,45 +354,37 @@ def reading_lemma(name, S, v, x):
 def volts_lemma(name, S, d, u):
     """close ctol u (volts_K d): the helper put u volts on the input for distance d"""
     K = S["key"]
-    adm = "_ _ _ _ _ %s_admissible _ ctol_ok" % K
-    tail = iv("close, ctol, %s_lo, %s_hi, %s_c, %s_e" % (K, K, K, K))
+    tail = iv("fr, close, ctol, %s_lo, %s_hi, %s_c, %s_e" % (K, K, K, K))
     if d == INF or d == -INF:
+        adm = "_ _ _ _ _ %s_admissible _ ctol_ok" % K
         w = "PInf" if d > 0 else "NInf"
         return ("Lemma %s : close ctol %s (volts_x %s_c %s_e %s_lo %s_hi %s).\nProof. apply (corr_volts_%s %s); %s. Qed.\n"
                 % (name, lit(u), K, K, K, K, w, w.lower(), adm, tail))
     fd = Fraction(d)
     st = "Lemma %s : close ctol %s (volts_%s %s).\n" % (name, lit(u), K, lit(d))
-    if fd >= S["Fhi"]:
-        pf = "apply (corr_volts_hi %s); [unfold %s_hi; lra | %s]" % (adm, K, tail)
-    elif fd <= S["Flo"]:
-        pf = "apply (corr_volts_lo %s); [unfold %s_lo; lra | %s]" % (adm, K, tail)
-    else:
-        pf = "apply (corr_volts_mid %s); [unfold %s_lo, %s_hi; lra | %s]" % (adm, K, K, tail)
+    br = "hi" if fd >= S["Fhi"] else ("lo" if fd <= S["Flo"] else "mid")
+    pf = "apply (%s_q_volts_%s %s %s); [%s | %s]" % (K, br, zq(d), zq(u), BOOL, tail)
     return st + "Proof. " + pf + ". Qed.\n"
 
 
 def clamp_lemma(name, S, d, x):
-    """close ctol x (clamp lo hi d): the sensor reads the clamped distance"""
+    """close ctol x (clamp lo hi d): the sensor reads the clamped distance (all in Z)"""
     K = S["key"]
-    adm = "_ _ _ _ _ %s_admissible _ ctol_ok" % K
-    rat = "apply close_rat; unfold ctol, %s_lo, %s_hi; lra" % (K, K)
     if d == INF or d == -INF:
+        adm = "_ _ _ _ _ %s_admissible _ ctol_ok" % K
+        rat = "apply close_rat; unfold ctol, %s_lo, %s_hi; lra" % (K, K)
         w = "PInf" if d > 0 else "NInf"
         return ("Lemma %s : close ctol %s (clamp_x %s_lo %s_hi %s).\nProof. apply (corr_clamp_%s %s); %s. Qed.\n"
                 % (name, lit(x), K, K, w, w.lower(), adm, rat))
     fd = Fraction(d)
     st = "Lemma %s : close ctol %s (clamp %s_lo %s_hi %s).\n" % (name, lit(x), K, K, lit(d))
-    if fd >= S["Fhi"]:
-        pf = "apply (corr_clamp_hi %s); [unfold %s_hi; lra | %s]" % (adm, K, rat)
-    elif fd <= S["Flo"]:
-        pf = "apply (corr_clamp_lo %s); [unfold %s_lo; lra | %s]" % (adm, K, rat)
-    else:
-        pf = "apply (corr_clamp_mid %s); [unfold %s_lo, %s_hi; lra | %s]" % (adm, K, K, rat)
+    br = "hi" if fd >= S["Fhi"] else ("lo" if fd <= S["Flo"] else "mid")
+    pf = "apply (%s_q_clamp_%s %s %s); %s" % (K, br, zq(d), zq(x), BOOL)
     return st + "Proof. " + pf + ". Qed.\n"
 
 
 def cost(txt):
-    return 60 if "interval" in txt else 25
+    return 45 if "interval" in txt else 8
 
 
 def remembers_lemma(name, S, d, g):
@@ -405,7 +406,13 @@ def run(ctx):
     ]
     # the proof part (make, Properties/C17.v, Print Assumptions, token scan) runs beside the
     # correspondence: Print Assumptions over Reals costs ~0.85 s per theorem
-    prover = threading.Thread(target=ctx.prove)
+    def prove():
+        try:
+            ctx.prove()
+        except Exception as ex:  # noqa: BLE001 - a crash of the proof step must not pass silently
+            ctx.obligation("prove:Properties/C17.v checked", False, repr(ex))
+
+    prover = threading.Thread(target=prove)
     prover.start()
     pend = []       # obligations of this thread, recorded after the prover's (stable order)
 
@@ -496,7 +503,7 @@ def run(ctx):
         # ---- the lemma files, 16-way ------------------------------------
         nsh = 16 if quick else 64
         files, index = [], {}
-        # shards balanced by estimated cost (an interval goal ~60 ms, an lra-only lemma ~25 ms)
+        # shards balanced by estimated cost (an interval goal ~45 ms, a lemma decided in Z ~8 ms)
         bins = [[0.0, []] for _ in range(nsh)]
         for lem in sorted(lemmas, key=lambda l: -cost(l[1])):
             b = min(bins, key=lambda b: b[0])
@@ -556,7 +563,11 @@ def run(ctx):
             "tolerance": "1e-12 relative (ctol)",
         })
 
-    body()
+    try:
+        body()
+    except Exception as ex:  # noqa: BLE001 - same for the correspondence step
+        import traceback
+        ob("harness:correspondence step completed", False, traceback.format_exc()[-1500:] or repr(ex))
     prover.join()
     for name, ok, detail in pend:
         ctx.obligation(name, ok, detail)
